@@ -457,8 +457,6 @@ def run(ctx, pairs_fn, n):
     def reqs():
         for case, cfg in pairs_fn(n):
             cfg = dict(cfg, algo="ilp", res=ctx.rng.random() < 0.35)
-            if len(case.names) <= len(set(cfg.get("init") or [])):
-                continue  # no variable at all: CBC answers status OTHER for the empty program (a solver fault)
             if not cfg["res"]:
                 _, arg = oracle.welfare_opt(case, C04.profit_for(case, cfg), cfg.get("init") or [])
                 if len(arg) > MAX_OPTIMA:
@@ -527,6 +525,13 @@ def corner_pairs():
                 {"rule": "maxw", "sat": "Relative_Cardinality_Sat", "algo": "ilp", "res": False, "init": ["p3"]}))
     out.append((Case([("p0", F(1, 3)), ("p1", F(1, 3)), ("p2", F(2, 3)), ("p3", F(1, 2))], F(4, 3), "app", [["p0", "p1", "p2"], ["p1", "p3"], ["p2", "p3"]], seed=0),
                 {"rule": "maxw", "sat": "Cost_Sat", "algo": "ilp", "res": False, "init": []}))
+    # nothing left to decide (D46): every project in the initial allocation / an instance without projects — no optimize() call
+    for res in (True, False):
+        out.append((Case([("p0", F(1)), ("p1", F(2))], F(5), "app", [["p0"], ["p1", "p0"]], seed=0),
+                    {"rule": "maxw", "sat": "Cost_Sat", "algo": "ilp", "res": res, "init": ["p0", "p1"]}))
+        out.append((Case([], F(5), "app", [[], []], seed=0), {"rule": "maxw", "sat": "Cardinality_Sat", "algo": "ilp", "res": res, "init": []}))
+        out.append((Case([("p0", F(1, 2))], F(1, 2), "card", [{"p0": F(-3)}], seed=0),
+                    {"rule": "maxw", "sat": "Additive_Cardinal_Sat", "algo": "ilp", "res": res, "init": ["p0"]}))
     # a project nobody approves (score 0: the zero coefficient disappears from the solver's row)
     out.append((Case([("p0", F(1)), ("p1", F(2)), ("p2", F(2))], F(3), "app", [["p0", "p1"], ["p1"]], seed=0),
                 {"rule": "maxw", "sat": "Cardinality_Sat", "algo": "ilp", "res": False, "init": []}))
